@@ -177,6 +177,7 @@ type RouteSpec struct {
 	Conds    []string `json:"conds,omitempty"` // condition k is true iff request header Conds[k] == "1"
 	NoCT     []string `json:"noct,omitempty"`  // AllowedMethodsWithoutContentType
 	Marker   bool     `json:"marker,omitempty"`
+	Enc      int      `json:"content_encoding_override,omitempty"` // 1: ContentEncodingEnabled(true), 2: ContentEncodingEnabled(false)
 	// ViaSvc: Consumes/Produces are not set on the RouteBuilder but inherited from WebService.Consumes/Produces
 	ViaSvc bool `json:"via_service_defaults,omitempty"`
 }
